@@ -42,7 +42,12 @@ fn call(v: &[u8]) -> Option<Result<bool, String>> {
     let hv = http::HeaderValue::from_bytes(v).ok()?;
     let mut h = http::HeaderMap::new();
     h.insert(http::header::ACCEPT_ENCODING, hv);
+    crate::util::add_bystanders(&mut h, hash64(&v));
     Some(crate::util::catch(|| http_serve::should_gzip(&h)))
+}
+
+fn bystanders_of(v: &[u8]) -> Vec<&'static str> {
+    crate::util::add_bystanders(&mut http::HeaderMap::new(), hash64(&v))
 }
 
 pub fn judge_value(v: &[u8], sink: &mut Sink) -> (Verdict, bool) {
@@ -60,7 +65,7 @@ pub fn judge_value(v: &[u8], sink: &mut Sink) -> (Verdict, bool) {
             if want == got {
                 (Verdict::Ok, true)
             } else {
-                (Verdict::viol(format!("want={}|got={}", want, got), format!("Accept-Encoding {:?}: model says {}, should_gzip returned {}", show(v), want, got)), false)
+                (Verdict::viol(format!("want={}|got={}", want, got), format!("Accept-Encoding {:?} (other request headers present: {:?}): model says {}, should_gzip returned {}", show(v), bystanders_of(v), want, got)), false)
             }
         }
     }
